@@ -115,3 +115,31 @@ func HarnessC19MathWrappersFP() {
 	}
 	verifrt.Reach("done")
 }
+
+// HarnessC05MathSumOverSetFP (C05): math.sum of a set does not depend on the
+// iteration order of the Go map behind the set (float addition is not
+// associative, so an order that follows the map would show in the result).
+func HarnessC05MathSumOverSetFP() {
+	x, y, z := verifrt.Float64(), verifrt.Float64(), verifrt.Float64()
+	verifrt.Assume(x == x && y == y && z == z) // NaN is never equal to itself: keep the comparison meaningful
+	set := object.NewSet([]object.Object{object.NewFloat(x), object.NewFloat(y), object.NewFloat(z)})
+	r1, p1 := c19Call(Sum, set)
+	verifrt.MapOrderAll(true)
+	r2, p2 := c19Call(Sum, set)
+	verifrt.MapOrderAll(false)
+	verifrt.Assert(!p1 && !p2, "sum-never-panics")
+	if p1 || p2 {
+		return
+	}
+	verifrt.Reach("summed")
+	f1, ok1 := r1.(*object.Float)
+	f2, ok2 := r2.(*object.Float)
+	if ok1 && ok2 {
+		a, b := f1.Value(), f2.Value()
+		verifrt.Assert(a == b || (a != a && b != b), "sum-of-a-set-independent-of-map-iteration-order")
+	} else {
+		_, e1 := r1.(*object.Error)
+		_, e2 := r2.(*object.Error)
+		verifrt.Assert(e1 == e2, "sum-of-a-set-independent-of-map-iteration-order")
+	}
+}
